@@ -7,8 +7,8 @@ import cmdline_sig
 
 def families(tier):
     if tier == "quick":
-        return D.conv_family(SEED, 60, max_named=3, maxlen=3, budget=4000)
-    return D.conv_family(SEED, 300, max_named=4, maxlen=4, budget=40000)
+        return D.api_variants(D.conv_family(SEED, 60, max_named=3, maxlen=3, budget=4000), SEED)
+    return D.api_variants(D.conv_family(SEED, 300, max_named=4, maxlen=4, budget=40000), SEED)
 
 
 def driver(tier):
